@@ -1,10 +1,10 @@
 SPECIFICATION Spec
 CONSTANTS CancelOnExit = TRUE
- FiredTimerCleared = FALSE
- RestoreTimerFirst = TRUE
- StartMode = "fresh"
+ FiredTimerCleared = TRUE
+ RestoreTimerFirst = FALSE
+ StartMode = "restore"
  MaxNow = 3
- MaxLevel = 9
+ MaxLevel = 8
  MinStop = 0
  Tables = "some"
 INVARIANT AtMostOnePending
